@@ -380,7 +380,7 @@ func (l c06) Exec(env *core.Env) *core.Result {
 				}
 				wantExpiryFail := !expiry.IsZero() && !tv.Before(expiry)
 				if !wantExpiryFail {
-					res.Violate("C06/unexpired-signature-failed-expiry", config+" at "+pos, "verification at %s, expiry %s: expiry result error=%v", tv.Format(time.RFC3339Nano), fmtT(expiry), exp.Error)
+					res.Probe("unexpired_signature_failed_expiry") // allowed by the statement (see below)
 				}
 				res.Nontrivial = true
 				res.Probe("enforced_expiry_failure_ended_verification")
@@ -457,19 +457,19 @@ func (l c06) Exec(env *core.Env) *core.Result {
 			key := config + " at " + pos
 			trace = append(trace, map[string]any{"at": tv.Sub(t0).String(), "position": pos, "signature": inst.which, "expiry_failed": exp.Error != nil, "authentic_timestamp_passed": ts.Error == nil, "model": why})
 			sim.Abstract(fmt.Sprint(key, exp.Error != nil, ts.Error == nil))
-			if wantExpiryFail != (exp.Error != nil) {
-				class := "C06/expired-signature-passed-expiry"
-				if !wantExpiryFail {
-					class = "C06/unexpired-signature-failed-expiry"
-				}
-				res.Violate(class, key, "verification at %s, expiry %s: expiry result error=%v", tv.Format(time.RFC3339Nano), fmtT(expiry), exp.Error)
+			// The statement is one-directional on both counts: an expired signature FAILS expiry, and the authentic
+			// timestamp passes ONLY IF the certificates were valid at the trusted time. An implementation that also
+			// fails in other situations (a safety margin before expiry, a signing time in the future, a coarser
+			// accuracy bound) is within it: those verdicts are counted, not reported.
+			if wantExpiryFail && exp.Error == nil {
+				res.Violate("C06/expired-signature-passed-expiry", key, "verification at %s, expiry %s: expiry result error=%v", tv.Format(time.RFC3339Nano), fmtT(expiry), exp.Error)
+			} else if !wantExpiryFail && exp.Error != nil {
+				res.Probe("unexpired_signature_failed_expiry")
 			}
-			if wantTSPass != (ts.Error == nil) {
-				class := "C06/authentic-timestamp-passed-wrongly"
-				if wantTSPass {
-					class = "C06/authentic-timestamp-failed-wrongly"
-				}
-				res.Violate(class, key, "verification at %s: authenticTimestamp error=%v; model: %s (windows end %s / %s / %s)", tv.Format(time.RFC3339Nano), ts.Error, why, ends[0].Format(time.RFC3339), ends[1].Format(time.RFC3339), ends[2].Format(time.RFC3339))
+			if !wantTSPass && ts.Error == nil {
+				res.Violate("C06/authentic-timestamp-passed-wrongly", key, "verification at %s: authenticTimestamp error=%v; model: %s (windows end %s / %s / %s)", tv.Format(time.RFC3339Nano), ts.Error, why, ends[0].Format(time.RFC3339), ends[1].Format(time.RFC3339), ends[2].Format(time.RFC3339))
+			} else if wantTSPass && ts.Error != nil {
+				res.Probe("authentic_timestamp_failed_although_the_model_passes")
 			}
 		}
 	})
